@@ -48,11 +48,18 @@ def run(ctx, crate):
     D.rule_rows_newtype(ctx, crate)
     # "nothing at all for the clearing variant": the paint protocol, in particular an empty final frame clears the old rows
     D.rule_draw_order(ctx, crate)
+    # "one last frame that reflects the final state", also where old rows are overwritten instead of cleared (move-cursor mode)
+    D.rule_overwrite_covers_row(ctx, crate)
     # "visibly finished bars keep their final rendering ... in order": only zombies at the head of the *logical* order are
     # released from the managed region, and the frame is composed through that order
     from .c02 import rule_head_only_reap, rule_order_source
     rule_head_only_reap(ctx, crate)
     rule_order_source(ctx, crate)
+    # a bar paints its final frame only while its slot is in the ordering: a slot that is handed out again must be a fresh one
+    # (remove_idx resets the whole member; a stale `is_zombie` would have the new bar reaped before it finishes)
+    from .c02 import rule_remove_idx, rule_insert_arms
+    rule_remove_idx(ctx, crate)
+    rule_insert_arms(ctx, crate)
     D.rule_render_unless_hidden(ctx, crate)
 
 
@@ -250,6 +257,11 @@ def rule_finish_api_map(ctx, crate, rule="R-FINISH-API-MAP"):
             ok = sl.has_field("on_finish", "state::BarState") and not {a for a in sl.atoms if a[0] == "agg" and a[1] == "state::ProgressFinish"}
             ctx.check(ok, rule, "on_finish", b.name, c.loc(), "finish_using_style passes a clone of BarState::on_finish",
                       "finish_using_style does not use the configured on_finish behaviour", cfg)
+            n += 1
+            ctx.check(b.must_pass([0], [c.bb]), rule, "on_finish-every-path", b.name, c.loc(),
+                      "the public finish_using_style() finishes the bar on every path, whatever its state",
+                      "ProgressBar::finish_using_style() can return without finishing (a state-dependent early return): on an already finished (abandoned, reset-then-finished) bar "
+                      "the call no longer sets position := length / the message - `inc(3); abandon(); finish_using_style()` leaves the position at 3", cfg)
     # with_finish stores its argument
     b = K.find_one(ctx, crate, rule, r"progress_bar::ProgressBar::with_finish")
     if b:
